@@ -83,6 +83,18 @@ fn solo(v: &Value) -> Result<CaseReport, String> {
     run_solo(v, report)
 }
 
+/// "each stays findable after every insertion and removal" for sibling sets created in
+/// monotone order (lookup depth = number of siblings).
+fn deep_chains(_ctx: &Ctx, ev: &mut Value) -> Option<Violation> {
+    match crate::props::scenarios::monotone_siblings() {
+        Ok(n) => {
+            ev["coverage"]["monotone_sibling_histories"] = serde_json::json!(n);
+            None
+        }
+        Err(v) => Some(v),
+    }
+}
+
 pub fn def() -> PropDef {
     PropDef {
         id: "C09",
@@ -94,7 +106,7 @@ pub fn def() -> PropDef {
         worker,
         solo,
         hang_cpu_s: 30.0,
-        extra: None,
+        extra: Some(deep_chains),
         confirm_known: false,
     }
 }
